@@ -2,3 +2,6 @@
 //%item packages/haloswap/src/pair.rs struct InstantiateMsg
 //%item packages/haloswap/src/pair.rs struct MigrateMsg
 //%item packages/haloswap/src/pair.rs enum ExecuteMsg
+//%item packages/haloswap/src/pair.rs enum QueryMsg
+//%item packages/haloswap/src/pair.rs struct SimulationResponse
+//%item packages/haloswap/src/pair.rs struct ReverseSimulationResponse
